@@ -78,7 +78,22 @@ func bklrEvent(r *Run, g *gen.G, layers []tv.T) []byte {
 		top = writeTree(d, name, allExts, g, l)
 	}
 	f := g.Pick([]string{"json", "yaml"})
-	res := tool(d, "bklr", "-f", f, top)
+	var res fsx.RunResult
+	if g.P(0.4) {
+		// through -o, into a file that already holds an older skeleton: afterwards the file
+		// holds THIS result (also when it is empty)
+		op := "req." + g.Pick([]string{f, f, "yml"})
+		if fsx.Ext(op) == "yml" {
+			f = "yaml"
+		}
+		os.WriteFile(filepath.Join(d, op), []byte("stale: $required\n"), 0o644)
+		res = tool(d, "bklr", "-o", op, top)
+		if res.Exit == 0 {
+			res.Stdout, _ = os.ReadFile(filepath.Join(d, op))
+		}
+	} else {
+		res = tool(d, "bklr", "-f", f, top)
+	}
 	ev := map[string]any{"ev": "Tool", "tool": "bklr", "layers": layers, "ok": res.Exit == 0, "plain": true,
 		"out": tv.T{"n", ""}, "second": tv.T{"n", ""}, "bkl": map[string]any{"ok": false, "required": false}}
 	if res.TimedOut || res.Panicked {
@@ -288,7 +303,7 @@ func modelToolCases(r *Run, family string, bound int, f func(js []byte)) modelSt
 func bkldRun(d string, g *gen.G, baseName string, base, target tv.T, tag string) map[string]any {
 	bf := writeTree(d, baseName, allExts, g, base)
 	tf := writeTree(d, "target"+tag, allExts, g, target)
-	lf := baseName + ".lay" + tag + "." + g.Pick([]string{"yaml", "json"})
+	lf := baseName + ".lay" + tag + "." + g.Pick([]string{"yaml", "json", "yml", "jsonl"})
 	res := tool(d, "bkld", "-o", lf, bf, tf)
 	out := map[string]any{"ok": res.Exit == 0 && !res.TimedOut && !res.Panicked, "layer": tv.T{"n", ""},
 		"applied": map[string]any{"ok": false, "outs": []any{}}, "stderr": trunc(string(res.Stderr), 200)}
@@ -596,6 +611,21 @@ func bkliEvent(r *Run, g *gen.G, inputs []tv.T, kf string) []byte {
 	ev["out"] = out
 	selfs := []any{}
 	for i := range inputs {
+		if i%2 == 1 && fsx.Ext(files[i]) != "toml" {
+			// in place: the output file is one of the inputs (all inputs are read before anything is written)
+			ext := fsx.Ext(files[i])
+			cp := fmt.Sprintf("self%d.%s", i, ext)
+			b, _ := os.ReadFile(filepath.Join(d, files[i]))
+			os.WriteFile(filepath.Join(d, cp), b, 0o644)
+			rs := tool(d, "bkli", "-o", cp, cp, cp)
+			ob, _ := os.ReadFile(filepath.Join(d, cp))
+			if o, ok := decodeOne(ext, ob); ok && rs.Exit == 0 {
+				selfs = append(selfs, o)
+			} else {
+				selfs = append(selfs, tv.T{"s", "bkli -o <input> failed: " + trunc(string(rs.Stderr)+string(ob), 100)})
+			}
+			continue
+		}
 		rs := tool(d, "bkli", "-f", "json", files[i], files[i])
 		if o, ok := decodeOne("json", rs.Stdout); ok && rs.Exit == 0 {
 			selfs = append(selfs, o)
